@@ -2,6 +2,7 @@ package main
 
 import (
 	"fmt"
+	"safecheck/relang"
 	"strings"
 
 	"golang.org/x/tools/go/ssa"
@@ -227,6 +228,12 @@ func checkURLPrefixChains(p *Program, r *Report) {
 					qfSet, qfPol, hasQF = s, a.Pol, true
 				}
 			}
+			if !hasQF {
+				// no single Contains-style guard: decide from the language of prefixes that reach this return
+				if pol, ok := prefixClassByLanguage(p, alt); ok {
+					qfSet, qfPol, hasQF = "#?", pol, true
+				}
+			}
 			coversQF := strings.Contains(qfSet, "#") && strings.Contains(qfSet, "?")
 			switch {
 			case isTRU:
@@ -321,4 +328,73 @@ func isValidatorWrapperNil(pv *Prov, a Atom) bool {
 		}
 	}
 	return n > 0
+}
+
+// prefixClassByLanguage evaluates the path condition of a chain return as a language over the
+// static attribute-value prefix (the loads of c.attr.value in that function). It reports
+// (true, true) when every such prefix contains '#' or '?', (false, true) when none does.
+func prefixClassByLanguage(p *Program, alt chainAlt) (bool, bool) {
+	fn := alt.Ret.Parent()
+	regs, _ := p.AllRegexes()
+	s := NewSummarizer(p, regs)
+	env := termEnv{}
+	for _, b := range fn.Blocks {
+		for _, in := range b.Instrs {
+			u, ok := in.(*ssa.UnOp)
+			if !ok {
+				continue
+			}
+			fa, ok := u.X.(*ssa.FieldAddr)
+			if !ok || fieldName(fa.X.Type(), fa.Field) != "value" {
+				continue
+			}
+			if fa2, ok := fa.X.(*ssa.FieldAddr); ok && fieldName(fa2.X.Type(), fa2.Field) == "attr" {
+				env[u] = Term{Param: 0}
+			}
+		}
+	}
+	if len(env) == 0 {
+		return false, false
+	}
+	cond := s.blockCond(alt.Ret.Block(), env, "chain return")
+	// the chain may be one of several alternatives merged before the return: add the conditions of the phi edges taken
+	for _, e := range alt.Edges {
+		if e[0].Parent() != fn {
+			continue
+		}
+		ec := s.blockCond(e[0], env, "chain edge")
+		if iff, ok := e[0].Instrs[len(e[0].Instrs)-1].(*ssa.If); ok && e[0].Succs[0] != e[0].Succs[1] {
+			f := s.ValueForm(iff.Cond, env)
+			if u, _ := f.HasUnknown(); !u {
+				if e[0].Succs[1] == e[1] {
+					f = fNot(f)
+				}
+				ec = fAnd(ec, f)
+			}
+		}
+		cond = fAnd(cond, ec)
+	}
+	per, ok := splitByParam(cond)
+	if !ok || per[0] == nil {
+		return false, false
+	}
+	L := NewLang()
+	if err := registerSumm(L, s, cond); err != nil {
+		return false, false
+	}
+	qf := relang.SetOfString("#?")
+	L.AddSet(qf)
+	L.Build()
+	A, amb, err := L.Eval(per[0])
+	if err != nil || len(amb) > 0 {
+		return false, false
+	}
+	has := relang.ContainsSym(L.A, qf)
+	if ok, _ := relang.Subset(A, has); ok {
+		return true, true
+	}
+	if ok, _ := relang.Disjoint(A, has); ok {
+		return false, true
+	}
+	return false, false
 }
